@@ -916,6 +916,9 @@ pub enum InsertPushRuleError {
 pub struct RuleNotFoundError;
 
 /// Insert the rule in the given indexset and move it to the given position.
+///
+/// `after` and `before` must be the IDs of other rules in the set. The set is left unchanged if an
+/// error is returned.
 pub fn insert_and_move_rule<T>(
     set: &mut IndexSet<T>,
     rule: T,
@@ -927,23 +930,37 @@ where
     T: Hash + Eq,
     str: Equivalent<T>,
 {
-    let (from, replaced) = set.replace_full(rule);
+    // The position is computed before the set is modified, so that the set is left untouched if
+    // an error is returned, and as an index in the set without `rule`, because this is what
+    // `move_index` expects.
+    let current = set.get_index_of(&rule);
+    let len = set.len() - usize::from(current.is_some());
 
-    let mut to = default_position;
+    let position_of = |rule_id: &str| match (set.get_index_of(rule_id), current) {
+        // A rule can't be placed relative to itself.
+        (Some(idx), Some(current)) if idx == current => Err(InsertPushRuleError::UnknownRuleId),
+        (Some(idx), Some(current)) if idx > current => Ok(idx - 1),
+        (Some(idx), _) => Ok(idx),
+        (None, _) => Err(InsertPushRuleError::UnknownRuleId),
+    };
+
+    // The default position might be past the end of the set.
+    let mut to = default_position.min(len);
 
     if let Some(rule_id) = after {
-        let idx = set.get_index_of(rule_id).ok_or(InsertPushRuleError::UnknownRuleId)?;
-        to = idx + 1;
+        to = position_of(rule_id)? + 1;
     }
     if let Some(rule_id) = before {
-        let idx = set.get_index_of(rule_id).ok_or(InsertPushRuleError::UnknownRuleId)?;
+        let idx = position_of(rule_id)?;
 
-        if idx < to {
+        if after.is_some() && idx < to {
             return Err(InsertPushRuleError::BeforeHigherThanAfter);
         }
 
         to = idx;
     }
+
+    let (from, replaced) = set.replace_full(rule);
 
     // Only move the item if it's new or if it was positioned.
     if replaced.is_none() || after.is_some() || before.is_some() {
